@@ -152,6 +152,8 @@ Conc(s) ==
     [] s = "dF"  -> <<BS,"d","e","f",BS,"m","f","#","1","{","m","#","1","}">>
     [] s = "dG"  -> <<BS,"n","e","w","c","o","m","m","a","n","d","{",BS,"m","g","}","[","1","]","{",BS,"m","b","{","#","1","}","n","}">>
     [] s = "rB"  -> <<BS,"r","e","n","e","w","c","o","m","m","a","n","d","{",BS,"m","b","}","[","1","]","{","n","#","1","}">>
+    [] s = "dH"  -> <<BS,"n","e","w","c","o","m","m","a","n","d","{",BS,"m","h","}","[","1","]","[","d","]","{","m","#","1","}">>
+    [] s = "uH"  -> <<BS,"m","h">>
     [] s = "uA"  -> <<BS,"m","a">>
     [] s = "uB"  -> <<BS,"m","b","{">>
     [] s = "uBt" -> <<BS,"m","b"," ","b">>
@@ -195,12 +197,12 @@ MathBody == {"my","mw","mpl","meq","mal","mfr","msb","msp","mti","mdt","mcm","mo
 DispBody == MathBody \cup {"mtx","mlb","mnn","mam","mnl"}
 CloserOf(o) == CASE o = "mo" -> "mc" [] o = "mo2" -> "mc2" [] o = "ba" -> "ea" [] o = "bq" -> "eq" [] o = "bd" -> "ed" [] o = "bdd" -> "edd"
 MathSyms == MathOpen \cup DispOpen \cup DispBody \cup {"mc","mc2","ea","eq","ed","edd"}
-DefSyms == {"dA","dB","dC","dD","dE","dF","dG","rB"}
-UseSyms == {"uA","uB","uBt","uC","uCo","uD","uE","uF","uG"}
+DefSyms == {"dA","dB","dC","dD","dE","dF","dG","rB","dH"}
+UseSyms == {"uA","uB","uBt","uC","uCo","uD","uE","uF","uG","uH"}
 MacroOf(s) == CASE s \in {"dA","uA"} -> "ma" [] s \in {"dB","rB","uB","uBt"} -> "mb" [] s \in {"dC","uC","uCo"} -> "mc"
-                [] s \in {"dD","uD"} -> "md" [] s \in {"dE","uE"} -> "me" [] s \in {"dF","uF"} -> "mf" [] s \in {"dG","uG"} -> "mg"
-MacroNames == {"ma","mb","mc","md","me","mf","mg"}
-MacroChars(m) == <<BS, "m", CASE m = "ma" -> "a" [] m = "mb" -> "b" [] m = "mc" -> "c" [] m = "md" -> "d" [] m = "me" -> "e" [] m = "mf" -> "f" [] m = "mg" -> "g">>
+                [] s \in {"dD","uD"} -> "md" [] s \in {"dE","uE"} -> "me" [] s \in {"dF","uF"} -> "mf" [] s \in {"dG","uG"} -> "mg" [] s \in {"dH","uH"} -> "mh"
+MacroNames == {"ma","mb","mc","md","me","mf","mg","mh"}
+MacroChars(m) == <<BS, "m", CASE m = "ma" -> "a" [] m = "mb" -> "b" [] m = "mc" -> "c" [] m = "md" -> "d" [] m = "me" -> "e" [] m = "mf" -> "f" [] m = "mg" -> "g" [] m = "mh" -> "h">>
 \* body of a definition: elements <<"t", ch>> (text), <<"a", k>> (parameter), <<"c", macro, elements>> (nested call with one argument)
 BodyOf(d) == CASE d = "dA" -> << <<"t","m">>, <<"t","n">> >>
                [] d = "dB" -> << <<"t","m">>, <<"a",1>>, <<"t","n">> >>
@@ -210,13 +212,14 @@ BodyOf(d) == CASE d = "dA" -> << <<"t","m">>, <<"t","n">> >>
                [] d = "dF" -> << <<"t","m">>, <<"a",1>> >>
                [] d = "dG" -> << <<"c","mb",<< <<"a",1>> >> >>, <<"t","n">> >>
                [] d = "rB" -> << <<"t","n">>, <<"a",1>> >>
+               [] d = "dH" -> << <<"t","m">>, <<"a",1>> >>
 BeginSyms == {"bi","be","bu","bl","bm"}
 EndSyms == {"ei","ee","eu","el","em"}
 EnvOf(s) == CASE s \in {"bi","ei"} -> "itemize" [] s \in {"be","ee"} -> "enumerate"
               [] s \in {"bu","eu"} -> "unk" [] s \in {"bl","el"} -> "lstlisting" [] s \in {"bm","em"} -> "minipage"
 
 AllSyms == Visible \cup ReplSyms \cup OpenSyms \cup BeginSyms \cup EndSyms \cup
-   {"sp","nl","tab","cm","lb","ix","uk","uk2","cb","skp","par","im","imp","ref","cite","skb","ske","q","fnq","it","vb","vrb","vrb2","ocb","ctc","rbk","up","uA","uBt","cmf","cmu","acb","ltE","ltD","gld","gls"} \cup DefSyms \cup MathSyms \cup FaultSyms \cup LangSyms
+   {"sp","nl","tab","cm","lb","ix","uk","uk2","cb","skp","par","im","imp","ref","cite","skb","ske","q","fnq","it","vb","vrb","vrb2","ocb","ctc","rbk","up","uA","uBt","uH","cmf","cmu","acb","ltE","ltD","gld","gls"} \cup DefSyms \cup MathSyms \cup FaultSyms \cup LangSyms
 
 (***************************************************************************)
 (* Reference state                                                         *)
@@ -237,7 +240,7 @@ Pos0(st) == Len(st.src)          \* 0-based offset of the next character = 1-bas
 
 CurLang(st) == st.lstack[Len(st.lstack)]
 Emit(st, items) == [st EXCEPT !.flows[CurFlow(st)] = @ \o [i \in 1..Len(items) |-> [items[i] EXCEPT !.lg = CurLang(st)]]]
-CwSyms == {"uk", "uk2", "par", "it", "uA", "mal", "mnn"}        \* symbols whose text ends with a control word
+CwSyms == {"uk", "uk2", "par", "it", "uA", "uH", "mal", "mnn"}        \* symbols whose text ends with a control word
 AddSrc(st, s) == [st EXCEPT !.src = @ \o Conc(s), !.cw = s \in CwSyms, !.vis = s \in Visible, !.ls = s]
 Feat(st, f) == [st EXCEPT !.feat = @ \cup {f}]
 \* text seen inside the innermost heading (for the dot rule) and in every enclosing frame
@@ -442,6 +445,11 @@ Step(st, s) ==
     [] s = "uA" ->
          IF st.defs["ma"] = "none" THEN AddUnk(Emit(s1, <<Lay("cw")>>), <<BS,"m","a">>)
          ELSE NoteText(Emit(Feat(s1, "umacro"), <<Lay("x")>> \o ExpandBody(st.defs, st.defs["ma"], <<>>, p0+1, p1, 3) \o <<Lay("x"), Lay("cw")>>), "n")
+    [] s = "uH" ->
+         \* only an optional parameter, omitted: the default text is generated text of this use
+         IF st.defs["mh"] = "none" THEN AddUnk(Emit(s1, <<Lay("cw")>>), <<BS,"m","h">>)
+         ELSE NoteText(Emit(Feat(Feat(s1, "umacro"), "default-used"), <<Lay("x")>> \o
+                   ExpandBody(st.defs, "dH", << <<It("f", "d", p0+1, p1, 0)>> >>, p0+1, p1, 3) \o <<Lay("x"), Lay("cw")>>), "d")
     [] s = "uBt" ->
          IF st.defs["mb"] = "none" THEN NoteText(AddUnk(Emit(s1, <<Lay("cw"), It("ws","",0,0,0), It("c", "b", p1, p1, 0)>>), <<BS,"m","b">>), "b")
          ELSE NoteText(Emit(Feat(Feat(s1, "umacro"), "single-token-arg"),
